@@ -611,3 +611,70 @@ func freeVarStored(fv *ssa.FreeVar) ssa.Value {
 	}
 	return stored
 }
+
+// boolCase is one way a boolean result comes about: the value leaf, flowing to the return from instruction At
+// (the return itself, or the terminator of the predecessor block whose phi edge carries the leaf).
+type boolCase struct {
+	At      ssa.Instruction
+	Leaf    ssa.Value
+	Edge    *ssa.If // when At is a conditional branch: the phi edge leaves it on successor EdgeIdx
+	EdgeIdx int
+}
+
+// boolCases splits a returned boolean into its phi leaves together with the program point each comes from, so that
+// `return a && b`, `if a && b { return true }; return false` and `if a { if b { return true } }` are judged alike.
+func boolCases(r *ssa.Return, idx int) []boolCase {
+	var out []boolCase
+	seen := map[ssa.Value]bool{}
+	var walk func(v ssa.Value, at ssa.Instruction, edge *ssa.If, ek int)
+	walk = func(v ssa.Value, at ssa.Instruction, edge *ssa.If, ek int) {
+		v = strip(v)
+		if p, ok := v.(*ssa.Phi); ok {
+			if seen[v] {
+				return
+			}
+			seen[v] = true
+			for i, e := range p.Edges {
+				pred := p.Block().Preds[i]
+				last := pred.Instrs[len(pred.Instrs)-1]
+				var ei *ssa.If
+				ek := 0
+				if ifi, ok := last.(*ssa.If); ok && pred.Succs[0] != pred.Succs[1] {
+					ei = ifi
+					if pred.Succs[1] == p.Block() {
+						ek = 1
+					}
+				}
+				walk(e, last, ei, ek)
+			}
+			return
+		}
+		out = append(out, boolCase{At: at, Leaf: v, Edge: edge, EdgeIdx: ek})
+	}
+	walk(r.Results[idx], r, nil, 0)
+	return out
+}
+
+// holdsWhenTrue: on every path on which the case yields true, the atom selected by sel has value val
+// (because the path requires it, or because the returned leaf is that very condition).
+func (w *World) holdsWhenTrue(fn *ssa.Function, bc boolCase, sel func(Atom) bool, val bool) bool {
+	if w.requires(fn, bc.At, sel, val) {
+		return true
+	}
+	if bc.Edge != nil {
+		a := w.atom(bc.Edge.Cond)
+		keyVal := !a.Neg
+		if bc.EdgeIdx == 1 {
+			keyVal = a.Neg
+		}
+		if sel(a) && keyVal == val {
+			return true
+		}
+	}
+	if _, isConst := bc.Leaf.(*ssa.Const); isConst {
+		return false
+	}
+	a := w.atom(bc.Leaf)
+	// leaf true <=> key holds != Neg, i.e. key = !Neg
+	return sel(a) && (!a.Neg) == val
+}
